@@ -451,7 +451,7 @@ func (c *aliasCtx) streamOracle() {
 func aliasStream(seed uint64, tier string, outDir string, props map[string]bool, focus string) *streamReport {
 	rep := &streamReport{Stream: "alias", Seed: seed, Distribution: map[string]int{}, Outcomes: map[string]int{}, OracleChecks: map[string]int{}}
 	c := &aliasCtx{rep: rep, props: props, r: newRng(seed, "alias")}
-	nh, perFile := 160, 20
+	nh, perFile := 320, 20
 	if tier == "thorough" {
 		nh = 4000
 	}
